@@ -578,6 +578,7 @@ def m_encode(ex, self, args, kw):
             return self.encode(*(args or ["utf-8"]))
         except UnicodeEncodeError:
             raise SymRaise("UnicodeEncodeError", "")
+    codec_arg(args, kw)
     return SStr(self.segs, isbytes=True)
 
 
@@ -585,6 +586,7 @@ def m_encode(ex, self, args, kw):
 def m_decode(ex, self, args, kw):
     if isinstance(self, bytes):
         return self.decode(*(args or ["utf-8"]))
+    codec_arg(args, kw)
     return SStr(self.segs, isbytes=False)
 
 
